@@ -89,6 +89,7 @@ pub fn run(em: &mut Emitter, rng: &mut Rng, thorough: bool) {
         let ps = in_ctx(ctx, random_program(rng, forest.len()));
         for kind in 0..8u8 { source_case(em, rng, mode, &ps, &data, kind); }
     }
+    run_grants(em, rng, thorough);
     // typed leaves with two-octet peeks (INTEGER check_head) under exact grants
     for _ in 0..(if thorough { 20_000 } else { 2_000 }) {
         let n = rng.range(0, 5) as usize; let mut c = rng.bytes(n); if n > 0 && rng.bool() { c[0] = *rng.pick(&[0u8, 0xff, 0x7f, 0x80]); }
@@ -96,6 +97,100 @@ pub fn run(em: &mut Emitter, rng: &mut Rng, thorough: bool) {
         let ps = vec![Prog::Take { opt: true, kind: 1, exp: Some((0, 2)), body: Body::Typed(rng.below(10) as u8) }, Prog::ReadAll];
         let m = rng.below(3) as u8;
         for kind in 0..8u8 { source_case(em, rng, m, &ps, &data, kind); }
+    }
+}
+
+// ---------------- C07 Level A: raw operation scripts, request counts ----------------
+#[derive(Clone, Debug)]
+enum Aop { TakeU8, TakeOpt, Skip(usize), TakeAll, SkipAll, SetLim(Option<usize>), Request(usize), Tag }
+
+fn enc_aops(ops: &[Aop]) -> Vec<i128> {
+    let mut v = Vec::new();
+    for o in ops { match o {
+        Aop::TakeU8 => v.push(0), Aop::TakeOpt => v.push(1), Aop::Skip(n) => { v.push(2); v.push(*n as i128) }
+        Aop::TakeAll => v.push(3), Aop::SkipAll => v.push(4), Aop::SetLim(Some(n)) => { v.push(5); v.push(*n as i128) }
+        Aop::SetLim(None) => v.push(6), Aop::Request(n) => { v.push(7); v.push(*n as i128) } Aop::Tag => v.push(8),
+    } }
+    v
+}
+
+/// (code, log): runs until the first error
+fn run_aops<S: Source>(ops: &[Aop], src: &mut bcder::decode::LimitedSource<S>) -> (i128, Vec<i128>) {
+    let mut log = Vec::new();
+    for o in ops {
+        let r: Result<Vec<i128>, bool> = match o {
+            Aop::TakeU8 => src.take_u8().map(|b| vec![b as i128]).map_err(|e| is_source_err(&e)),
+            Aop::TakeOpt => src.take_opt_u8().map(|b| vec![b.map(|b| b as i128).unwrap_or(-1)]).map_err(|_| true),
+            Aop::Skip(n) => src.skip(*n).map(|m| vec![m as i128]).map_err(|_| true),
+            Aop::TakeAll => src.take_all().map(|b| { let mut v = vec![b.len() as i128]; v.extend(b.iter().map(|x| *x as i128)); v }).map_err(|e| is_source_err(&e)),
+            Aop::SkipAll => src.skip_all().map(|_| vec![0]).map_err(|e| is_source_err(&e)),
+            Aop::SetLim(l) => { src.set_limit(*l); Ok(vec![]) }
+            Aop::Request(n) => src.request(*n).map(|g| vec![g as i128]).map_err(|_| true),
+            Aop::Tag => Tag::take_opt_from(src).map(|o| match o {
+                Some((t, c)) => { let mut buf = Vec::new(); t.write_encoded(false, &mut buf).unwrap(); buf.resize(4, 0); let mut v = vec![1]; v.extend(buf.iter().map(|x| *x as i128)); v.push(c as i128); v }
+                None => vec![0] }).map_err(|e| is_source_err(&e)),
+        };
+        match r { Ok(l) => log.extend(l), Err(true) => return (2, log), Err(false) => return (1, log) }
+    }
+    (0, log)
+}
+
+pub fn run_grants(em: &mut Emitter, rng: &mut Rng, thorough: bool) {
+    for _ in 0..(if thorough { 400_000 } else { 40_000 }) {
+        let n = rng.below(12) as usize;
+        let mut data = rng.bytes(n);
+        // make multi-octet identifiers likely
+        for i in 0..n { if rng.chance(1, 4) { data[i] = *rng.pick(&[0x1fu8, 0x3f, 0x9f, 0x80, 0x81, 0xff, 0x1e, 0x7f]); } }
+        let nops = rng.range(1, 6) as usize;
+        let mut ops = Vec::new();
+        if rng.chance(3, 4) { ops.push(Aop::SetLim(Some(rng.below(n as u64 + 3) as usize))); }
+        for _ in 0..nops {
+            ops.push(match rng.below(10) {
+                0 => Aop::TakeU8, 1 => Aop::TakeOpt, 2 => Aop::Skip(rng.below(5) as usize),
+                3 => Aop::TakeAll, 4 => Aop::SkipAll,
+                5 | 6 => Aop::SetLim(Some(rng.below(n as u64 + 3) as usize)),
+                7 => Aop::Request(rng.below(n as u64 + 3) as usize),
+                8 => Aop::Tag,
+                _ => if rng.chance(1, 3) { Aop::SetLim(None) } else { Aop::Tag },
+            });
+        }
+        let kind = rng.below(4) as u8; let param = rng.range(1, 5);
+        let tl = rng.range(1, 8) as usize; let mut table = [0u16; 8];
+        for t in table.iter_mut().take(tl) { *t = rng.below(n as u64 + 2) as u16; }
+        let policy = match kind { 0 => Policy::All, 1 => Policy::Exact, 2 => Policy::Chunk(param as usize), _ => Policy::Table(table, tl) };
+        let tab: Vec<i128> = table[..tl].iter().map(|x| *x as i128).collect();
+        let (ops2, data2) = (ops.clone(), data.clone());
+        em.case(702, &[num_arg(kind), num_arg(param), ints_of(&tab), ints_of(&enc_aops(&ops)), bytes_arg(&data)], move || {
+            let r = catch(|| {
+                let mut src = bcder::decode::LimitedSource::new(FlexSource::new(&data2, policy, None));
+                let (code, log) = run_aops(&ops2, &mut src);
+                let inner = src.unwrap();
+                (code, log, data2.len() - inner.left(), inner.reqs)
+            });
+            // the same script on a slice source: outcome, values and consumption must agree
+            // (Request reports a source-specific amount, so it is left out of the comparison)
+            let base = catch(|| {
+                let mut src = bcder::decode::LimitedSource::new(SliceSource::new(&data2));
+                let (code, log) = run_aops(&ops2, &mut src);
+                let inner = src.unwrap();
+                (code, log, data2.len() - inner.len())
+            });
+            let has_req = ops2.iter().any(|o| matches!(o, Aop::Request(_)));
+            match r {
+                Some((code, log, used, reqs)) => {
+                    let mut obs = vec![code, used as i128, reqs as i128]; obs.extend(log.clone());
+                    let orc = match base {
+                        Some((bc, bl, bu)) => if has_req || (bc, &bl, bu) == (code, &log, used) { Oracle::Pass } else { Oracle::Fail("outcome-depends-on-source".into()) },
+                        None => Oracle::None,   // documented misuse panic (take_all/skip_all without a limit)
+                    };
+                    (ints_of(&obs), orc, true)
+                }
+                None => {
+                    let orc = if base.is_some() { Oracle::Fail("contract-violation-or-panic".into()) } else { Oracle::None };
+                    (Ints::new().n(3), orc, true)
+                }
+            }
+        });
     }
 }
 
